@@ -157,8 +157,7 @@ def _transport_io_sites(repo, fq, op, depth=2, seen=None):
   return out
 
 
-def r2_r3_regions(report, repo):
-  rule = 'C13-R2'
+def r2_r3_regions(report, repo, rule='C13-R2', rule3='C13-R3'):
   report.rule(rule, 'T-REGION/T-WHO: header and payload transfer of one '
               'message lie in one continuous lock region (writer lock for '
               'write_message, reader lock for read_message), helper methods '
@@ -204,7 +203,6 @@ def r2_r3_regions(report, repo):
                      '_transport.%s used by %s' % (op, f.qualname),
                      '_transport.%s is called from %s, outside the framed '
                      '%s path' % (op, f.qualname, allowed[op][0]))
-  rule3 = 'C13-R3'
   report.rule(rule3, 'T-MUST: in write_message the payload write post-dominates '
               'the header write on all normal paths; header first')
   f = repo.func(AM, CLS + '.write_message')
@@ -594,3 +592,5 @@ def run(report, repo):
   report.guard(r5_tables, report, repo)
   from sa.rules import extra4  # pylint: disable=g-import-not-at-top
   report.guard(extra4.defaults_are_constants, report, repo, 'C13-R6', AM)
+  from sa.rules import extra5 as _e5c  # pylint: disable=g-import-not-at-top
+  report.guard(_e5c.read_until_filters_only_by_command, report, repo, 'C13-R7')
